@@ -456,6 +456,14 @@ func TestAndXLayout(t *testing.T) {
 	}
 	vf.Rapid(s, vf.N(1500, 30000), func(t *rapid.T) andxCase {
 		d := rapid.SliceOfNDistinct(rapid.ByteRange(1, 254), 4, 4, rapid.ID[byte]).Draw(t, "bytes")
+		if rapid.IntRange(0, 2).Draw(t, "special") == 0 {
+			// the values a block holds when nothing follows or nothing was filled in, and the extremes: an explicit
+			// zero (command 0x00 is SMB_COM_CREATE_DIRECTORY, offset 0) is a field value like any other
+			d[0] = rapid.SampledFrom([]byte{0x00, 0x00, 0x01, 0x2E, 0x75, 0xFE, 0xFF, 0xFF}).Draw(t, "command")
+			d[1] = rapid.SampledFrom([]byte{0x00, 0x00, 0x01, 0xFF}).Draw(t, "reserved")
+			off := rapid.SampledFrom([]uint16{0, 0, 0, 1, 0x00FF, 0x0100, 0x8000, 0xFFFF, 0x1234}).Draw(t, "offset")
+			d[2], d[3] = byte(off), byte(off>>8)
+		}
 		st := ""
 		var fields map[string]json.RawMessage
 		if rapid.Bool().Draw(t, "inStruct") {
